@@ -57,6 +57,13 @@ fn corpus(seed: u64, budget: usize) -> Vec<String> {
     for &a in &[' ', 'a', '\u{e9}', '\u{a0}'] { for &b in &[' ', 'a', '\u{a0}', '\u{1f600}'] { for &c in &[' ', 'b', '\u{200a}'] { for &d in &[' ', 'c', '\u{4e2d}'] { for &e in &[' ', '\u{a0}', 'd'] {
         v.push([a, b, c, d, e].iter().collect());
     } } } } }
+    // every contextual code point between every pair of neighbours that some RFC 5892 rule looks at
+    let ctx = ['\u{b7}', '\u{200c}', '\u{200d}', '\u{375}', '\u{5f3}', '\u{5f4}', '\u{30fb}', '\u{661}', '\u{6f1}'];
+    let nb = ['l', 'L', 'a', '\u{94d}', '\u{a9c0}', '\u{93c}', '\u{3b1}', '\u{5d0}', '\u{30a2}', '\u{3042}', '\u{4e2d}', '\u{1100}', '\u{ac00}', '\u{1720}',
+              '\u{644}', '\u{627}', '\u{64e}', '\u{5bf}', '\u{a872}', '\u{629}', '\u{661}', '\u{6f1}'];
+    for &c in &ctx { for &a in &nb { v.push([a, c].iter().collect()); v.push([c, a].iter().collect()); for &b in &nb { v.push([a, c, b].iter().collect()); } } }
+    for &c in &ctx { for &a in &nb { for &t in &['\u{64e}', '\u{5bf}', '\u{93c}'] { for &b in &nb { v.push([a, t, c, t, b].iter().collect()); v.push([a, '\u{94d}', t, c, b].iter().collect()); } } } }
+    for &c in &ctx { for &d in &ctx { for &a in &['l', '\u{94d}', '\u{3b1}'] { v.push([a, c, a, d, a].iter().collect()); v.push([a, c, a, d].iter().collect()); } } }
     while v.len() < budget {
         let n = 3 + rng.below(6);
         let s: String = (0..n).map(|_| ALPHABET[rng.below(ALPHABET.len())]).collect();
